@@ -119,7 +119,7 @@ def run_histories(ctx, hs, tag, fresh=1, facts=False, timeout=3400):
 
 def judge(ctx, tracefile, tag, module="TraceController"):
     n = core.count_lines(tracefile)
-    cfg = controller_cfg([1, 2, 3], list(U.ING), 0, 0, ["Result"], spec="TraceSpec", secvals=("absent", "v1", "v2", "bad"),
+    cfg = controller_cfg([1, 2, 3], list(U.ING), 0, 0, ["Result"], spec="TraceSpec", secvals=("absent", "v1", "v2", "bad", "w1", "w2"),
                          epsids=tuple(U.EPS))
     r = core.tlc(ctx, "judge-" + tag, module, None, cfgtext=cfg, workers=1, timeout=3000, files={tracefile: "trace.ndjson"},
                  heap="8g")
